@@ -312,8 +312,11 @@ int bufr_expand_qualifiers( DataSubset* dss )
 
 		/* Assign copy of current qualifier list to the descriptor.
 		 * This may require allocating new (empty) RTMD.
+		 * A descriptor that was given qualifiers by an earlier call and
+		 * has none in effect any more must lose them.
 		 */
-		if  (( nb_quals>0 ) && bufr_meta_enabled )
+		if  ( bufr_meta_enabled && (( nb_quals>0 )
+				|| ( pbcd[i]->meta && pbcd[i]->meta->nb_qualifiers>0 )) )
 			{
 			BufrDescriptor* bd = pbcd[i];
 			if( bd->meta == NULL ) bd->meta = bufr_create_rtmd(0);
